@@ -1,5 +1,8 @@
 package art
 
 func NewFloatBinaryTree[K floats, V any]() Tree[K, V] {
+	if verifRecording {
+		return verifWrap[K, V]("float", &floatSortedTree[K, V]{}, nil)
+	}
 	return &floatSortedTree[K, V]{}
 }
